@@ -511,6 +511,24 @@ func runParse(c *Ctx, std *fdCapture) {
 	} else {
 		// C09: accepted strings of the parser exploration: all token strings up to length 4 (5 in thorough)
 		rec(maxLen, "")
+		// string literals: every body over the pieces below up to length 4 (5 in thorough) - plain and non-ASCII
+		// characters before, between and after every escape
+		pieces := []string{"a", `\\`, `\"`, `\n`, `\t`, "\t", "é", "'", "`", "日", "n", " "}
+		litLen := 4
+		if c.thorough() {
+			litLen = 5
+		}
+		var lit func(n int, cur string)
+		lit = func(n int, cur string) {
+			emit(`$.a.Equal("`+cur+`")`, "string-literals")
+			if n == 0 {
+				return
+			}
+			for _, p := range pieces {
+				lit(n-1, cur+p)
+			}
+		}
+		lit(litLen, "")
 	}
 	all := append(append([]string{}, c08Alphabet...), parseExtra...)
 	for i := 0; i < c.scale(40000, 400000); i++ {
